@@ -2,7 +2,10 @@
 //! and the builders), driven through the real sink of a real server (role 0) or client (role 1)
 //! connection over ntex_io::testing::IoTest. Model: coq/Model/Sink.v.
 //!
-//! case: first field `cap,role`; then one field per operation
+//! case: first field `cap,role`: cap = MqttServiceConfig::set_max_send(cap) (role 0, the sink of a server connection;
+//!   SUBACK/UNSUBACK from the peer are ignored by a server dispatcher) or the window of a client connection
+//!   (role 1: v3 max_send, v5 the Receive Maximum of the CONNACK; cap 0 is set through the hook);
+//!   then one field per operation
 //!   1,t,kind,id[,size]  start task t: kind 1 QoS1 send_at_least_once, 2 QoS2 send_exactly_once, 3 subscribe().send(),
 //!                       4 unsubscribe().send(), 5 MqttSink::ready(), 6 QoS0 send_at_most_once (id ignored),
 //!                       7 stream_at_least_once(size); id 0 = automatic packet id, else `.packet_id(id)`;
@@ -489,6 +492,8 @@ async fn drive<A: Api>(api: A, peer: IoTest, v5: bool, c: &Fields) -> Fields {
                     task.chunk_status = 0;
                 }
             }
+            // self-test of the case isolation in `run_lines` (never generated)
+            99 if std::env::var_os("MV_SINK_SELFTEST_PANIC").is_some() => panic!("selftest"),
             _ => {}
         }
         settle().await;
@@ -587,6 +592,9 @@ macro_rules! client_conn {
             peer.write(connack);
             settle().await;
             let sink = slot.borrow().clone().expect("client sink");
+            if cap == 0 {
+                sink.verif_set_cap(0);
+            }
             (sink, peer)
         }
     };
@@ -594,7 +602,12 @@ macro_rules! client_conn {
 
 client_conn!(client3, v3, "C3", |_cap: u16| vec![0x20, 2, 0, 0]);
 // CONNACK: session present 0, success, properties: receive maximum = cap
-client_conn!(client5, v5, "C5", |cap: u16| vec![0x20, 6, 0, 0, 3, 0x21, (cap >> 8) as u8, cap as u8]);
+// (receive maximum 0 is a protocol error: the window is then closed through the hook)
+client_conn!(client5, v5, "C5", |cap: u16| if cap == 0 {
+    vec![0x20, 3, 0, 0, 0]
+} else {
+    vec![0x20, 6, 0, 0, 3, 0x21, (cap >> 8) as u8, cap as u8]
+});
 
 /// all cases of the input on single-threaded ntex runtimes; a panic that escapes the per-task guards
 /// (inside the dispatcher) ends the case with `9999` and the remaining cases run on a fresh runtime
